@@ -76,9 +76,9 @@ theorem rename_hidden_on_every_state {σ} (inner : FSI σ) (hp : List Path) (o n
 /-- … `Symlink`: no link located at a hidden path, and none whose (lexical, effective) target is at
 or below a hidden path, can be created; on every state, no state changed -/
 theorem symlink_hidden_on_every_state {σ} (inner : FSI σ) (hp : List Path) (o n : Path) (s : σ) :
-    (isHidden (if isAbs o then o else join (dir n) o) (mk hp) = .ok true →
+    (isHidden (if isAbs o then o else join (dir (clean n)) o) (mk hp) = .ok true →
       (hiddenFS hp inner).call s (.symlink o n) = (s, .error .hiddenPerm)) ∧
-    (isHidden (if isAbs o then o else join (dir n) o) (mk hp) = .ok false → isHidden n (mk hp) = .ok true →
+    (isHidden (if isAbs o then o else join (dir (clean n)) o) (mk hp) = .ok false → isHidden n (mk hp) = .ok true →
       (hiddenFS hp inner).call s (.symlink o n) = (s, .error .hiddenPerm)) := by
   constructor
   · intro h
